@@ -334,7 +334,7 @@ func attribute(res result, uf []unfaithful, ctxt func() string) pbt.Verdict {
 	}
 	msg := strings.Join(lines, "\n  ")
 
-	id := ""            // first recognised finding
+	id := ""                 // first recognised finding
 	var unknown []unfaithful // plan disagreements that explain a violation but match no finding
 	var involved []unfaithful
 	allExplained := true
